@@ -13,7 +13,7 @@ PROP = 'C03'
 MANIFEST = dict(
     technique='TLA+ models Cursor (chunked cursor refines a flat cursor) and Tokenizer (the _get_token/_handle_comment/_handle_string loop as a step machine, one transition per character delivered) checked by TLC; every transition of both models replayed on the real Tokenizer; token streams, line numbers, errors and _next_char events of the real tokenizer under every delivery form validated by TLC (TokenizerTrace)',
     category='model_checking',
-    text='TLC exhausts the lexer model over every text up to length 3 (4 thorough) over a 17-character syntax alphabet (26 characters up to length 3, thorough) x every assignment of the options whose trigger characters occur, with the invariants: at most 2(n+1) characters delivered, no second push-back, ends in EOF-for-ever or exactly one error of the error alphabet, line numbers monotone and bounded by the line breaks seen, token shapes, the same lexer over every chunking (with empty chunks) of the chunked-cursor model sees the same, irrelevant options do not matter; the cursor model is checked for every chunking of texts up to length 5 (6) against a flat cursor for every legal next/rewind sequence. The real Tokenizer is run on exactly that family (count handshake) as one str, lines, a file object, every cut into chunks, with empty chunks, through generators; on all 128 option sets for the shortest texts; once per transition of the mode x flag x option set x character table enumerated by TLC (with _next_char wrapped to count the cursor reads); on seeded random texts up to 200 characters mixing syntax and arbitrary Unicode with cuts inside CR LF, escapes, comment openers and closers; and Keyvalues.parse on token soups and mutated documents in all delivery forms. Scripts of caller operations (call, peek, push_back to depth 3 in every order of NEWLINE/STRING/brace tokens, expect with both skip_newline values, skipping_newlines, block; also on IterTokenizer) must deliver exactly the push-back stack in front of the source token stream observed in a plain run of the same text. TLC judges every record: nothing but the typed syntax error (and no run beyond 4(n+2)+16 cursor reads), exactly one distinct observation (tokens, values, line numbers; exception type, message, file and line) over all delivery forms of a text, Tokens, values, line numbers and the wording and position of errors are compared between the delivery forms of one text only; the comparison with Lex(text, options) of the specification (which texts are errors, token stream, line convention) is reported as diag.* counts in the evidence and never makes a violation.',
+    text='TLC exhausts the lexer model over every text up to length 3 (4 thorough) over a 17-character syntax alphabet (26 characters up to length 3, thorough) x every assignment of the options whose trigger characters occur, with the invariants: at most 2(n+1) characters delivered, no second push-back, ends in EOF-for-ever or exactly one error of the error alphabet, line numbers monotone and bounded by the line breaks seen, token shapes, the same lexer over every chunking (with empty chunks) of the chunked-cursor model sees the same, irrelevant options do not matter; the cursor model is checked for every chunking of texts up to length 5 (6) against a flat cursor for every legal next/rewind sequence. The real Tokenizer is run on exactly that family (count handshake) as one str, lines, a file object, every cut into chunks, with empty chunks, through generators; on all 128 option sets for the shortest texts; once per transition of the mode x flag x option set x character table enumerated by TLC (with _next_char wrapped to count the cursor reads); on seeded random texts up to 200 characters mixing syntax and arbitrary Unicode with cuts inside CR LF, escapes, comment openers and closers; and Keyvalues.parse on token soups and mutated documents in all delivery forms. Totality is also probed on long repetitive texts: 31 units (comments, blanks, operators, strings, flags, parens, directives, BOM, escapes and line breaks inside strings/parens/comments) and 132 pairwise alternations repeated 2000 times (thorough: 20000), as one str / per line / per character, within a wall-clock bound and the linear read bound. Scripts of caller operations (call, peek, push_back to depth 3 in every order of NEWLINE/STRING/brace tokens, expect with both skip_newline values, skipping_newlines, block; also on IterTokenizer) must deliver exactly the push-back stack in front of the source token stream observed in a plain run of the same text. TLC judges every record: nothing but the typed syntax error (and no run beyond 4(n+2)+16 cursor reads), exactly one distinct observation (tokens, values, line numbers; exception type, message, file and line) over all delivery forms of a text, Tokens, values, line numbers and the wording and position of errors are compared between the delivery forms of one text only; the comparison with Lex(text, options) of the specification (which texts are errors, token stream, line convention) is reported as diag.* counts in the evidence and never makes a violation.',
     design_ref='4 (C03)',
     note='Trusts TLC, the projection (token name/value/line_num, exception type/message/line_num, _cur_chunk/_char_index/_last_was_cr read from outside) and CPython str.casefold for non-ASCII directive characters. Pure-Python tokenizer only (the Cython _tokenizer cannot be built here). Keyvalues.parse is bound to the lexer model only through its error/non-error outcome and chunk independence; its grammar is C01.',
 )
@@ -76,6 +76,7 @@ def run(tier: str, seed: int) -> int:
             'random': lambda: core.run_driver('c03_driver.py', ['random', work.path('random.ndjson')], env=env),
             'kvsoup': lambda: core.run_driver('c03_driver.py', ['kvsoup', work.path('kvsoup.ndjson')], env=env),
             'calls': lambda: core.run_driver('c03_driver.py', ['calls', work.path('calls.ndjson')], env=env),
+            'long': lambda: core.run_driver('c03_driver.py', ['long', work.path('long.ndjson')], env=env, timeout=3000),
         }
         for c in fam_cfgs:
             jobs[c] = (lambda c=c: run_tlc('Tokenizer', c, timeout=3000))
@@ -95,7 +96,7 @@ def run(tier: str, seed: int) -> int:
             raise core.MachineryError(f'vacuous lexer model: actions never taken: {never}')
         cov['actions_covered'] = {a: res['cov'].coverage[a][1] for a in sorted(MC_ACTIONS)}
         # ---- 2. every transition of the two models, replayed on the real tokenizer
-        recs = [work.path('random.ndjson'), work.path('kvsoup.ndjson'), work.path('calls.ndjson')]
+        recs = [work.path('random.ndjson'), work.path('kvsoup.ndjson'), work.path('calls.ndjson'), work.path('long.ndjson')]
         edges = [p for p in res['edges'].prints if isinstance(p, dict) and p.get('tag') == 'EDGE']
         if len(edges) != res['edges'].generated - len({json.dumps(e['o'], sort_keys=True) for e in edges}):
             raise core.MachineryError(f'{edge_cfg}: {len(edges)} edges printed for {res["edges"].generated} generated states')
